@@ -462,7 +462,11 @@ LAYOUTS = ['as-built', 'touch-sample', 'touch-obs', 'touch-both',
            'csc-stored-zeros', 'csr-unsorted', 'transposed-twice',
            'filtered-keep-all', 'after-nnz', 'coo-input', 'deepcopied',
            'pickled', 'narrow-dtype-input', 'after-queries',
-           'csr-duplicate-entries', 'csc-duplicate-entries']
+           'csr-duplicate-entries', 'csc-duplicate-entries',
+           'table-subclass']
+
+
+_SUBCLASS = {}
 
 
 def layout_state(t):
@@ -518,6 +522,16 @@ def apply_layout(biom, spec, recipe, r):
             # operations) leave the entries of a row in any order
             unsort(t.matrix_data)
         return t
+    if recipe == 'table-subclass':
+        # user code subclasses Table; an instance of the subclass is a table
+        # like any other
+        sub = _SUBCLASS.get(id(biom.Table))
+        if sub is None:
+            sub = _SUBCLASS[id(biom.Table)] = type('LabTable', (biom.Table,),
+                                                   {})
+        return sub(spec.D.copy(), list(spec.obs_ids), list(spec.samp_ids),
+                   copy.deepcopy(spec.obs_md), copy.deepcopy(spec.samp_md),
+                   type=spec.type, table_id=spec.table_id)
     if recipe in ('csr-duplicate-entries', 'csc-duplicate-entries'):
         # scipy lets a compressed matrix store one coordinate several times;
         # the cell is the sum (here v = 2 + (v - 2), and a 3 + -3 on a cell
